@@ -4,6 +4,8 @@ import (
 	"fmt"
 	"math/big"
 	"math/rand/v2"
+	"sort"
+	"strings"
 
 	"github.com/bnb-chain/tss-lib/v2/common"
 	"github.com/bnb-chain/tss-lib/v2/crypto/modproof"
@@ -24,6 +26,12 @@ func c11Transcripts() []c11Attack {
 		{ID: "mod/transcript-prime-modulus-2048", Kind: "transcript", Guard: "N composite"},
 		{ID: "mod/transcript-prime-modulus-1024", Kind: "transcript", Guard: "N composite"},
 		{ID: "mod/transcript-mersenne-2203", Kind: "transcript", Guard: "N composite"},
+		// the last sentence of C11 (Paillier operations refuse values outside their domain instead of
+		// wrapping): direct boundary probes of the exported operations. Pure functions, no simulation
+		// involved; the scalar side cannot be reached from the network (the multiplier is Bob's own
+		// secret), the ciphertext side is also covered in situ by C13's N^2 / +N cells
+		{ID: "paillier-domain/scalar", Kind: "domain", Guard: "plaintext and multiplier in [0,N)"},
+		{ID: "paillier-domain/ciphertext", Kind: "domain", Guard: "ciphertext in [0,N^2) and a unit"},
 	}
 }
 
@@ -96,6 +104,10 @@ func driveC11Transcript(rc *RunCtx) {
 			session[i] = byte(r.UintN(256))
 		}
 	}
+	if sc.Str("akind", "") == "domain" {
+		drivePaillierDomain(rc, id, r)
+		return
+	}
 	var N *big.Int
 	switch id {
 	case "mod/transcript-prime-modulus-2048":
@@ -137,6 +149,78 @@ func driveC11Transcript(rc *RunCtx) {
 	if accepted || acceptedWire {
 		rc.Res.Cells[id] = "accepted"
 		rc.Fail("false-statement-accepted", "attack %s (guard: %s): the Paillier-Blum modulus verifier accepted a transcript for a %d-bit PRIME modulus (every equation holds by construction; only the compositeness guard can reject it)", id, sc.Str("guard", ""), N.BitLen())
+		rc.Res.Violation.Key = "c11-accepted#" + id
+	}
+}
+
+// drivePaillierDomain hands out-of-domain values to the exported Paillier operations of a vendored key.
+func drivePaillierDomain(rc *RunCtx, id string, r *rand.Rand) {
+	sc := rc.Sc
+	fx, err := LoadECFixtures()
+	if err != nil {
+		rc.Fail("harness", "%v", err)
+		return
+	}
+	sk := fx[sc.Int("variant", 0)%5].PaillierSK
+	pk := &sk.PublicKey
+	N, N2 := pk.N, pk.NSquare()
+	st := &Stepper{Seed: rc.EntropySeed("paillier-domain"), Ch: NewChooser(0, nil, true)}
+	rd := st.NewNodeRand("caller", "rand")
+	add := func(a *big.Int, k int64) *big.Int { return new(big.Int).Add(a, big.NewInt(k)) }
+	var accepted []string
+	tried := 0
+	out := st.Run(func() {
+		c0, err := pk.Encrypt(rd, big.NewInt(7))
+		if err != nil {
+			accepted = append(accepted, "harness: Encrypt(7) failed: "+err.Error())
+			return
+		}
+		probe := func(what string, err error) {
+			tried++
+			if err == nil {
+				accepted = append(accepted, what)
+			}
+		}
+		if id == "paillier-domain/scalar" {
+			for name, m := range map[string]*big.Int{"-1": big.NewInt(-1), "N": N, "N+1": add(N, 1), "2N": new(big.Int).Lsh(N, 1), "N^2": N2} {
+				_, e1 := pk.Encrypt(rd, m)
+				probe("Encrypt(m="+name+")", e1)
+				_, e2 := pk.HomoMult(m, c0)
+				probe("HomoMult(m="+name+", c)", e2)
+			}
+			return
+		}
+		for name, c := range map[string]*big.Int{"-1": big.NewInt(-1), "N^2": N2, "N^2+1": add(N2, 1), "2N^2": new(big.Int).Lsh(N2, 1)} {
+			_, e1 := pk.HomoMult(big.NewInt(3), c)
+			probe("HomoMult(3, c="+name+")", e1)
+			_, e2 := pk.HomoAdd(c, c0)
+			probe("HomoAdd(c="+name+", c0)", e2)
+			_, e3 := pk.HomoAdd(c0, c)
+			probe("HomoAdd(c0, c="+name+")", e3)
+			_, e4 := sk.Decrypt(c)
+			probe("Decrypt(c="+name+")", e4)
+		}
+		for name, c := range map[string]*big.Int{"0": big.NewInt(0), "N": N, "P (a factor of N)": sk.P, "N*Q": new(big.Int).Mul(N, sk.Q)} {
+			_, e := sk.Decrypt(c)
+			probe("Decrypt(c="+name+")", e)
+		}
+	})
+	if out.Panic != nil {
+		rc.Fail("panic", "%s: %v\n%s", id, out.Panic, firstRepoFrames(out.Stack))
+		return
+	}
+	rc.Res.Cells = map[string]string{id: "rejected"}
+	rc.Res.Nontrivial = true
+	rc.Res.Faults["out-of-domain-argument"] += tried
+	rc.Res.Sample = map[string]interface{}{"attack": id, "guard": sc.Str("guard", ""), "probes": tried, "outcome": "rejected"}
+	if len(accepted) > 0 {
+		if strings.HasPrefix(accepted[0], "harness") {
+			rc.Fail("harness", "%s", accepted[0])
+			return
+		}
+		sort.Strings(accepted)
+		rc.Res.Cells[id] = "accepted"
+		rc.Fail("false-statement-accepted", "attack %s (guard: %s): accepted without an error: %s", id, sc.Str("guard", ""), strings.Join(accepted, "; "))
 		rc.Res.Violation.Key = "c11-accepted#" + id
 	}
 }
